@@ -116,6 +116,12 @@ pub trait Check: Sync {
     fn exhaustive(&self) -> bool {
         false
     }
+    /// How many times a scenario is executed when a violation is being reproduced (minimisation
+    /// candidates, replay). 1 for fully deterministic engines; more for the real-time engine
+    /// simulation, whose task-level timing the seed does not fix.
+    fn attempts(&self) -> u32 {
+        1
+    }
 }
 
 #[derive(Clone, Debug, Serialize, Deserialize)]
@@ -315,7 +321,14 @@ pub struct ReplayFile {
 
 /// Execute a scenario in-process and classify.
 fn exec_once(check: &dyn Check, scenario: &Value, env: &Env) -> Outcome {
-    check.execute(scenario, env).0
+    let mut last = Outcome::Ok;
+    for _ in 0..check.attempts().max(1) {
+        last = check.execute(scenario, env).0;
+        if matches!(last, Outcome::Violation(_)) {
+            return last;
+        }
+    }
+    last
 }
 
 /// Greedy delta-debugging over the check's shrink candidates while the same violation class
@@ -535,6 +548,17 @@ pub fn run_check(check: &dyn Check, args: &CheckArgs) -> i32 {
             println!("  detail={}", violation.detail);
             reported.push(json!({"signature": violation.signature, "replay": path.display().to_string()}));
             exit_violation = true;
+        } else if check.attempts() > 1 {
+            // real-time engine simulation: the violation was observed by a schedule-insensitive
+            // oracle; the scenario is kept unminimised and replay may need further attempts
+            let file = ReplayFile { minimised: false, scenario: found.scenario.clone(), violation: found.violation.clone(), ..file };
+            std::fs::write(&path, serde_json::to_vec_pretty(&file).unwrap()).expect("write replay");
+            println!("VIOLATION property={} replay={}", check.id(), path.display());
+            println!("  class={} signature={}", found.violation.class, found.violation.signature);
+            println!("  detail={}", found.violation.detail);
+            println!("  note=timing-dependent: not reproduced in {} fresh attempts; the file holds the original scenario", check.attempts());
+            reported.push(json!({"signature": found.violation.signature, "replay": path.display().to_string(), "replay_is_probabilistic": true}));
+            exit_violation = true;
         } else {
             println!(
                 "HARNESS-ERROR replay of {} did not reproduce in a fresh process (exit {:?})",
@@ -614,7 +638,17 @@ pub fn replay(check: &dyn Check, file: &ReplayFile, inv: u32, quiet: bool) -> i3
         root: scratch_root(inv, 'r', 0),
         tier: Tier::parse(&file.tier).unwrap_or(Tier::Quick),
     };
-    let outcome = exec_once(check, &file.scenario, &env);
+    let mut outcome = Outcome::Ok;
+    let attempts = check.attempts().max(1);
+    for k in 0..attempts {
+        outcome = check.execute(&file.scenario, &env).0;
+        if matches!(outcome, Outcome::Violation(_)) {
+            if !quiet && attempts > 1 {
+                println!("replay: reproduced at attempt {} of {}", k + 1, attempts);
+            }
+            break;
+        }
+    }
     let _ = std::fs::remove_dir_all(&env.root);
     match outcome {
         Outcome::Violation(v) => {
